@@ -106,6 +106,8 @@ static void work_path(long lo, long hi, struct res *r, void *arg) {
             if (st != POLYSEED_OK) { res_viol(r, "c04:path-crypt-decode-status", rep, "phrase of an encrypted seed does not decode (%d)", st); bad = 1; }
             else { polyseed_crypt(d3, "secret"); r->cases++; bad |= keygen_case(d3, &s, coin, 32, 0, r, rep, "path-crypt-phrase-decrypt"); polyseed_free(d3); }
         }
+        /* the enabled mask is library state, not seed state: keygen of a held seed does not depend on it */
+        if (!bad) { polyseed_data *d5 = seed_from_ref(&s); if (d5) { polyseed_enable_features(0); r->cases++; bad |= keygen_case(d5, &s, coin, 32, 0, r, rep, "path-mask-changed"); polyseed_enable_features(0xFFFFFFF8u | 2); bad |= keygen_case(d5, &s, coin, 32, 0, r, rep, "path-mask-changed"); polyseed_enable_features(7); polyseed_free(d5); } }
         /* create with argument bits above the three feature bits set: they are not part of the seed */
         if (!bad && !(s.features & 16)) {
             uint8_t kt[32]; uint64_t kc = E.clock[0]; memcpy(kt, E.tape[0], 32);
